@@ -124,6 +124,53 @@ def compile_props(prop_id):
     return res
 
 
+FORBIDDEN = re.compile(r"\b(Admitted|admit|Axiom|Axioms|Parameter|Parameters|Conjecture|Conjectures|Admit Obligations|bypass_check|type_in_type)\b|Unset\s+(Guard|Positivity|Universe)\s+Checking|-type-in-type|-impredicative-set")
+
+
+def strip_comments(text):
+    out, depth, i, in_str = [], 0, 0, False
+    while i < len(text):
+        two = text[i:i + 2]
+        if not in_str and two == "(*":
+            depth += 1
+            i += 2
+        elif not in_str and depth and two == "*)":
+            depth -= 1
+            i += 2
+        else:
+            if depth == 0:
+                if text[i] == '"':
+                    in_str = not in_str
+                out.append(text[i] if not in_str or text[i] == '"' else " ")
+            i += 1
+    return "".join(out)
+
+
+def hygiene(files=None):
+    """every .v file of the development (and _CoqProject): nothing admitted, no axiom declared, no kernel check switched off,
+    no Variable/Hypothesis outside a section.  Returns a list of offences (empty = clean)."""
+    bad = []
+    files = files or (coq_files() + ["props/%s" % f for f in sorted(os.listdir(os.path.join(COQ, "props"))) if f.endswith(".v")])
+    for f in files + ["_CoqProject"]:
+        pth = os.path.join(COQ, f)
+        if not os.path.exists(pth):
+            continue
+        text = strip_comments(open(pth).read()) if f.endswith(".v") else open(pth).read()
+        for m in FORBIDDEN.finditer(text):
+            bad.append("%s: %s" % (f, m.group(0)))
+        if f.endswith(".v"):
+            depth = 0
+            for sent in re.split(r"\.(?=\s)", text):
+                st = sent.strip()
+                if re.match(r"(Section|Module(?!\s+Type\s+\w+\s*:=))\s+\w+\s*$", st):
+                    depth += 1
+                elif re.match(r"End\s+\w+\s*$", st):
+                    depth = max(0, depth - 1)
+                elif depth == 0 and re.match(r"(Variable|Variables|Hypothesis|Hypotheses|Context)\b", st):
+                    bad.append("%s: %s outside a section" % (f, st.split()[0]))
+    return bad
+
+
 ALLOWED_AXIOMS = ()  # none are needed so far; anything listed by Print Assumptions is reported
 
 
